@@ -570,6 +570,10 @@ func checkEncoding(f *vstat.Failure, v any, what string, reps int) (b []byte, nt
 // family (a): values decoded from documents outside the normal form
 
 func xOrderValue(t *rapid.T) any {
+	if gen.Pct(t, "far apart", 12) {
+		// values whose differences do not fit an int64 (but each of which does)
+		return []any{6e18, -6e18, 9e18, -9e18, "6000000000000000000", "-6000000000000000000", "9223372036854775807", "-9223372036854775808", 0.0, "0"}[gen.Uniform(t, "xorderfar", 10)]
+	}
 	return []any{1.0, 2.0, 2.0, 0.0, -1.0, 10.0, "1", "2", "10", "-3", 1.5, 2.5, "x", "1.5", true, nil, []any{1.0}, 1e12, ""}[gen.Uniform(t, "xorder", 19)]
 }
 
